@@ -218,6 +218,7 @@ def reads_recorded(O):
     C11.SCOPE_OBS["let"](W)
     C11.SCOPE_OBS["loop"](W)
     C11.SCOPE_OBS["repeat"](W)
+    C11.SCOPE_OBS["while"](W)        # the parser opens no scope for while either: what the run binds, the static gate knows
     C11.identifier_read(W)
 
 
